@@ -156,6 +156,88 @@ func streamConc(c *ctx) {
 			k.Kid()
 		})
 	}
+	// ---- keys as they arrive: decoded from CBOR / JSON / text (key_ops, kid, alg in the decoders' own value forms),
+	// handed to the goroutines before anything has looked at them; all start at a barrier and obtain + use an implementation
+	rounds := c.n(12, 120)
+	for _, a := range allAlgs {
+		k0, err := genKeyFor(a.alg)
+		if err != nil {
+			continue
+		}
+		switch {
+		case a.alg < 0:
+			k0.SetOps(iana.KeyOperationSign, iana.KeyOperationVerify)
+		case (a.alg >= 4 && a.alg <= 7) || a.alg == 14 || a.alg == 15 || a.alg == 25 || a.alg == 26:
+			k0.SetOps(iana.KeyOperationMacCreate, iana.KeyOperationMacVerify)
+		default:
+			k0.SetOps(iana.KeyOperationEncrypt, iana.KeyOperationDecrypt)
+		}
+		name := fmt.Sprintf("fresh decoded key alg=%d", a.alg)
+		for round := 0; round < rounds; round++ {
+			k, err := roundTrip(k0, 1+round%3)
+			if err != nil {
+				fail("conc", "key does not survive serialisation", name, err, "a key")
+				break
+			}
+			start := make(chan struct{})
+			var wg sync.WaitGroup
+			for g := 0; g < G; g++ {
+				wg.Add(1)
+				go func(g int) {
+					defer wg.Done()
+					defer func() {
+						if r := recover(); r != nil {
+							fail("conc-panic", "a concurrent call panicked", name, r, "a result")
+						}
+					}()
+					<-start
+					in := inputs[g%len(inputs)]
+					switch {
+					case a.alg < 0:
+						s, e1 := k.Signer()
+						v, e2 := k.Verifier()
+						if e1 != nil || e2 != nil {
+							fail("conc", "factory on a shared, freshly decoded key failed", name, fmt.Sprint(e1, e2), "implementations")
+							return
+						}
+						if sig, err := s.Sign(in); err != nil || v.Verify(in, sig) != nil {
+							fail("conc", "a signature made concurrently does not verify", name, err, "valid")
+						}
+					case (a.alg >= 4 && a.alg <= 7) || a.alg == 14 || a.alg == 15 || a.alg == 25 || a.alg == 26:
+						m, err := k.MACer()
+						if err != nil {
+							fail("conc", "factory on a shared, freshly decoded key failed", name, err, "a MACer")
+							return
+						}
+						if tag, err := m.MACCreate(in); err == nil && m.MACVerify(in, tag) != nil {
+							fail("conc", "a valid tag is refused under concurrency", name, "error", "nil")
+						}
+					default:
+						e, err := k.Encryptor()
+						if err != nil {
+							fail("conc", "factory on a shared, freshly decoded key failed", name, err, "an Encryptor")
+							return
+						}
+						iv := make([]byte, e.NonceSize())
+						if ct, err := e.Encrypt(iv, in, nil); err == nil {
+							if pt, err := e.Decrypt(iv, ct, nil); err != nil || !bytes.Equal(pt, in) {
+								fail("conc", "decryption under concurrency does not return the plaintext", name, err, "plaintext")
+							}
+						}
+					}
+					k.Ops()
+					k.Alg()
+					k.Kid()
+				}(g)
+			}
+			close(start)
+			wg.Wait()
+			mu.Lock()
+			c.evals += G
+			c.distinct["conc|"+name] = true
+			mu.Unlock()
+		}
+	}
 	// ---- ECDH: one shared object per curve
 	for _, crv := range []int{1, 2, 3, 4} {
 		ka, e1 := ecdh.GenerateKey(crv)
